@@ -12,21 +12,26 @@ from .. import hid
 
 LEVEL = 'model_checking'
 
+NV = 40
 EL = {
-    'int': dict(vals=['11', '22', '33', '44', '55', '66', '77', '88', '99'], show='write({x});', newv='5', ops=['+', '-', '*', '/', '%']),
-    'byte': dict(vals=["'a'", "'b'", "'c'", "'d'", "'e'", "'f'", "'g'", "'h'", "'i'"], show='write({x});', newv="'Z'", ops=['+', '-', '*', '/', '%']),
-    'bool': dict(vals=['true', 'false', 'true', 'true', 'false', 'false', 'true', 'false', 'true'], show='write({x});', newv='true', ops=[]),
-    'string': dict(vals=['"s0"', '"s1"', '"s2"', '"s3"', '"s4"', '"s5"', '"s6"', '"s7"', '"s8"'], show='write({x});', newv='"NEW"', ops=[]),
+    'int': dict(vals=[str(11 * (k + 1)) for k in range(NV)], show='write({x});', newv='5', ops=['+', '-', '*', '/', '%']),
+    'byte': dict(vals=["'" + chr(97 + k % 26) + "'" for k in range(NV)], show='write({x});', newv="'Z'", ops=['+', '-', '*', '/', '%']),
+    'bool': dict(vals=[('true', 'false', 'true', 'true', 'false', 'false', 'true', 'false', 'true')[k % 9] for k in range(NV)], show='write({x});', newv='true', ops=[]),
+    'string': dict(vals=[f'"s{k}"' for k in range(NV)], show='write({x});', newv='"NEW"', ops=[]),
 }
 LENS = [0, 1, 2, 7, 8, 9]
+LENS_T = [0, 1, 2, 3, 7, 8, 9, 15, 16, 17, 31, 32, 33]
 STORAGES = ['local_lit', 'local_vla', 'global_mut', 'global_const', 'param_mut', 'param_const_view', 'local_const']
 ACCESS = ['read', 'store', 'inc', 'castidx']
 
 
-def idx_values(L, W):
+def idx_values(L, W, tier='quick'):
     bits = 8 * W
     mx = (1 << (bits - 1)) - 1
     s = [-mx - 1, -2, -1, 0, 1, L - 1, L, L + 1, 255, 256, mx, 8, -8, 7]
+    if tier == 'thorough':
+        # every index from 10 below to 10 above the array, and the word/byte boundaries around it
+        s = list(range(-10, L + 11)) + [-mx - 1, -mx, mx - 1, mx, 255, 256, 257, 256 + L, 256 + L - 1, -256, -256 + L, 65535 & mx, (1 << bits - 2), -(1 << bits - 2)]
     out = []
     for v in s:
         if v not in out and -mx - 1 <= v <= mx:
@@ -140,14 +145,14 @@ def items(tier):
     i = 0
     for el in EL:
         for storage in STORAGES:
-            for L in LENS:
+            for L in (LENS_T if tier == 'thorough' else LENS):
                 for access in ACCESS:
                     if idx_program(el, storage, L, access) is not None:
                         out.append((i, 'IDX', el, storage, L, access))
                         i += 1
     for el in EL:
         for storage in STORAGES:
-            for L in (0, 1, 8):
+            for L in ((0, 1, 2, 8, 9, 17) if tier == 'thorough' else (0, 1, 8)):
                 out.append((i, 'IDXC', el, storage, L))
                 i += 1
     for k in range(len(STR_PROGS)):
@@ -166,7 +171,7 @@ def items(tier):
 
 
 def word_sizes(tier, idx):
-    return [2, 3, 4] if tier == 'thorough' else [2, (3, 4)[idx % 2]]
+    return [2, 3, 4, 8] if tier == 'thorough' else [2, (3, 4)[idx % 2]]
 
 
 def run_item(item, tier):
@@ -178,12 +183,13 @@ def run_item(item, tier):
         _, _, el, storage, L, access = item
         src = idx_program(el, storage, L, access)
         for W in Ws:
-            run_program(st, src, [[str(v)] for v in idx_values(L, W)], [W], f'IDX[{el},{storage},len={L},{access}]')
-        st.add('cases', len(idx_values(L, 2)))
+            run_program(st, src, [[str(v)] for v in idx_values(L, W, tier)], [W], f'IDX[{el},{storage},len={L},{access}]')
+        st.add('cases', len(idx_values(L, 2, tier)))
         st.sample({'family': 'IDX', 'element': el, 'storage': storage, 'length': L, 'access': access, 'indices': idx_values(L, 2)})
     elif fam == 'IDXC':
         _, _, el, storage, L = item
-        for k in (-32768, -1, 0, L - 1, L, L + 1, 255, 256, 32767):
+        for k in ((-32768, -32767, -257, -256, -255, -2, -1, 0, 1, L - 2, L - 1, L, L + 1, L + 2, 127, 128, 255, 256, 257, 256 + L - 1, 32766, 32767)
+                  if tier == 'thorough' else (-32768, -1, 0, L - 1, L, L + 1, 255, 256, 32767)):
             src = idxc_program(el, storage, L, k)
             if src is not None:
                 run_program(st, src, [['0']], Ws[:1], f'IDXC[{el},{storage},len={L},index={k}]')
@@ -192,13 +198,15 @@ def run_item(item, tier):
         k = item[2]
         extra = STR_EXTRA.get(k, [])
         for W in Ws:
-            run_program(st, STR_PROGS[k], [[str(v)] + extra for v in idx_values(5, W)], [W], f'STR[{k}]')
+            run_program(st, STR_PROGS[k], [[str(v)] + extra for v in idx_values(5, W, tier)], [W], f'STR[{k}]')
     elif fam == 'DIV':
         k = item[2]
         for W in Ws:
             bits = 8 * W
             mx = (1 << (bits - 1)) - 1
             vals = [-mx - 1, -7, -1, 0, 1, 7, mx]
+            if tier == 'thorough':
+                vals = sorted(set([-mx - 1, -mx, mx - 1, mx, -256, -255, 255, 256, 1 << bits - 2, -(1 << bits - 2)] + list(range(-9, 10))))
             run_program(st, DIV_PROGS[k], [[str(a), str(b)] for a in vals for b in vals], [W], f'DIV[{k}]')
         st.sample({'family': 'DIV', 'program': DIV_PROGS[k]})
     elif fam == 'LEN':
@@ -259,16 +267,17 @@ def _must_overflow(st, src, prog, n, W, S, tag):
 
 def coverage(total, tier):
     return std_coverage(total, {
-        'IDX': 'index in {min,-8,-2,-1,0,1,7,8,len-1,len,len+1,255,256,max} x length in {0,1,2,7,8,9} x element int/byte/bool/string x '
+        'IDX': ('every index in -10..len+10 plus {min,min+1,max-1,max,255,256,257,256+len-1,256+len,-256,-256+len,2^(n-2),-2^(n-2)} x length in {0,1,2,3,7,8,9,15,16,17,31,32,33}'
+                if tier == 'thorough' else 'index in {min,-8,-2,-1,0,1,7,8,len-1,len,len+1,255,256,max} x length in {0,1,2,7,8,9}') + ' x element int/byte/bool/string x '
                'storage {local literal, local const literal, VLA, mutable global, const global, by-reference parameter, const view of a '
                'mutable array} x access {read, store, every op=, index computed and narrowed with `is byte`}; the same with compile-time constant '
-               'indices (literal and const-variable expression) for lengths 0,1,8; string indexing from 9 sources incl. argv',
+               'indices (literal and const-variable expression; ' + ('22 values, lengths 0,1,2,8,9,17' if tier == 'thorough' else '9 values, lengths 0,1,8') + '); string indexing from 9 sources incl. argv',
         'DIV': '/ % /= %= on locals, globals, int and byte array elements, call operands, conditions and !truth_is_defeat arguments; '
-               'dividend and divisor over {min,-7,-1,0,1,7,max}^2',
+               'dividend and divisor over ' + ('({-9..9} + {min,min+1,max-1,max,+-255,+-256,+-2^(n-2)})^2' if tier == 'thorough' else '{min,-7,-1,0,1,7,max}^2'),
         'LEN': 'dynamic array length (plain, and computed + narrowed with `is byte`) in {min,-9,-8,-7,-2,-1,0,1,2,5,maxlen+1,max} (exact reference match at stack 8 and 64) and '
                '{maxlen, maxlen-1, just above the stack size, 4000 elements} (must be a clean stack_overflow) for int/byte/bool/string elements',
         'NLP': 'family P of C02 (preemptive defeat functions x continuations x undo/stop)',
-        'word_sizes': '2,3,4' if tier == 'thorough' else '2 plus one of 3,4 per program',
+        'word_sizes': '2,3,4,8' if tier == 'thorough' else '2 plus one of 3,4 per program',
     })
 
 
